@@ -151,13 +151,8 @@ def spec_bp(c, out):
     flat = [j for ch in out for j in ch]
     if flat != list(range(len(jobs))):
         return ('concat', 'chunks %r do not concatenate to the job list of %d jobs' % (out, len(jobs)))
-    if k > 0:
-        size = lambda ch: sum(abs(jobs[j][1] - jobs[j][0]) for j in ch)
-        for ch in out[:-1]:
-            if not ch or size(ch) < k or size(ch[:-1]) >= k:
-                return ('chunks', 'chunk %r is empty, below bp_per_job=%d or was not closed by its last job' % (ch, k))
-        if not out or size(out[-1]) >= k:
-            return ('chunks', 'last chunk reaches bp_per_job=%d but was not closed' % k)
+    # (the closing rule of a chunk - C17_bp_chunked_chunks - is a fact about the model only; the property asks
+    #  that grouping loses / duplicates / reorders nothing, so only that is searched for on the implementation)
     return None
 
 
@@ -506,7 +501,7 @@ class Prop(fw.PropBase):
     TRUSTED = [
         'coq/Model/C17.v is a hand transcription (no translator) of fill_range, trim_rangelist, range_contains_overlap, '
         '_merge_overlapping_ranges, merge_overlapping_ranges, blacklisted_binning and bp_chunked; tied to the source only by '
-        'the correspondence check (exhaustive small scopes + random), with fixes/C17-D21.patch and C17-D23.patch applied',
+        'the correspondence check (exhaustive small scopes + random); the model describes the code after fixes/C17-D21.patch (D21+D22), C17-D23.patch and C17-D31.patch (in /repo as b28cc73, cb8b50b, f481ccc)',
         'int((start - current) / total_bins) is modelled as Z.quot: assumes the float quotient of two integers below 2^53 '
         'truncates to the exact quotient (sampled up to 2^44); sorted() on tuples = insertion sort by (start, end)',
         'modelled not verified: reading the BED blacklist / contig lengths (get_bins_from_bed_dict, pysam header) in '
@@ -523,10 +518,12 @@ class Prop(fw.PropBase):
         quick = self.tier == 'quick'
         rng = self.rng
         chunks = []
-        corpus = []
+        corpus, self.corpus_contigs = [], []
         for p in sorted(glob.glob(os.path.join(CORPUS, '*.json'))):
-            corpus += json.load(open(p))['cases']
-        self.n_corpus = len(corpus)
+            d = json.load(open(p))
+            corpus += d.get('cases', [])
+            self.corpus_contigs += d.get('contigs', [])
+        self.n_corpus = len(corpus) + len(self.corpus_contigs)
         rnd = bb_random(rng, 6000 if quick else 60000) + bb_random(rng, 1500 if quick else 15000, big=True) \
             + bb_random(rng, 1000 if quick else 8000, outside_pre=True)
         small = small_streams(self.tier, rng)
@@ -535,7 +532,7 @@ class Prop(fw.PropBase):
         for i in range(0, len(rnd), step):
             chunks.append(('cases', rnd[i:i + step]))
         blocks = bb_scopes(self.tier)
-        per = 28 if quick else 12
+        per = 36 if quick else 12
         for i in range(0, len(blocks), per):
             chunks.append(('blocks', blocks[i:i + per]))
         self.blocks = blocks
@@ -558,7 +555,7 @@ class Prop(fw.PropBase):
                     T['viol'][key] = (sz, w)
         T['dis'] = sorted(T['dis'], key=lambda d: case_size(d['input']))[:10]
         # blacklisted_binning_contigs through a BED file
-        cont = contig_cases(self.tier, self.rng)
+        cont = self.corpus_contigs + contig_cases(self.tier, self.rng)
         cres = fw.run_impl('impl_c17.py', {'contigs': cont})
         T['contigs'] = (cont, cres['contigs'])
         T['bp_same'] = cres.get('bp_chunked_same_object')
